@@ -55,12 +55,20 @@ def _is_probe_answer(st: dict, x: int) -> bool:
     return len(rows) == 1 and rows[0].column(0)[0].as_py() == x
 
 
-def exchange(lv: Live, req: bytes, script: str, x: int, ver: bool, timeout: float, with_probe: bool = True) -> dict:
-    """Raw lock-step peer: one request (+ what a client would write for it) + probe; returns the observation."""
+def exchange(lv: Live, req: bytes, script: str, x: int, ver: bool, timeout: float, with_probe: bool = True,
+             strict: bool = False) -> dict:
+    """Raw lock-step peer: one request (+ what a client would write for it) + probe; returns the observation.
+    Normally the probe is written right behind the request (a pipelining peer); strict = the probe is written only
+    after the reply to the request has arrived (or the server is gone), so that the server never closes a socket
+    with unread input -- which on a unix socket resets the connection and can destroy its last reply."""
     base = lv.consumed()
     probe = R.probe_bytes(x, ver) if with_probe else b""
     expect = 1
-    if script == "hdr":
+    if strict and script != "hdr":
+        lv.send(req + (R.CLOSE_INPUT if script == "blind" else b""))
+        lv.wait_streams(1, timeout, base)
+        lv.send(probe)
+    elif script == "hdr":
         lv.send(req)
         sts = lv.wait_streams(1, timeout, base)
         if sts and sts[0].get("complete") and world.error_of(sts[0]) is None:
@@ -87,6 +95,7 @@ def exchange(lv: Live, req: bytes, script: str, x: int, ver: bool, timeout: floa
     ended_now = lv.ended.is_set()
     err = world.error_of(sts[0]) if sts and sts[0].get("complete") else None
     return {"first": first, "probe": pr, "died": bool(lv.died), "ended": ended_now and not lv.died, "short": short,
+            "reset": lv.reset,
             "nstreams": len(sts), "expect": total, "died_with": (lv.died[0] if lv.died else None),
             "err_type": err.get("type") if err else None, "used": sum(len(s.get("raw", b"")) for s in sts[:total])}
 
@@ -328,16 +337,17 @@ def _run_requests(ctx: Ctx, cases, segs, servers, conns: Conns, obs: list) -> No
             continue
         shm_case = case["seg"] != "none" or case["ptr"] != "none"
         nfaults = cj["faults"]
-        if quick and nfaults >= 2:
+        # number of concrete variants per class: most for the classes next to an ordinary request
+        if nfaults >= 3 or (quick and nfaults == 2):
             plan = [("Ve", "pipe", 0), ("Ve", "unix" if ci % 2 else "pipe", 1)]
         else:
             plan = [("Ve", "pipe", 0), ("Ve", "pipe", 1), ("Ve", "unix", 2), ("Ve", "pipe", 3)]
         if case["pv"] != "ok":
             plan.append(("ve", "pipe", 4))
         if case["loc"] != "absent":
-            plan += [("VE", "pipe", 5), ("VE", "pipe", 6), ("vE", "unix", 7)]
-        if not quick:
-            plan += [("Ve", "pipe", 8 + j) for j in range(3)] + [("Ve", "unix", 11)]
+            plan += [("VE", "pipe", 5), ("VE", "pipe", 6), ("vE", "unix", 7)] if nfaults <= 2 else [("VE", "pipe", 5)]
+        if not quick and nfaults <= 2:
+            plan += [("Ve", "pipe", 8 + j) for j in range(3 if nfaults <= 1 else 1)] + [("Ve", "unix", 11)]
         for wn, tr, v in plan:
             script = exp[wn]["script"]
             if script == "na":
@@ -353,11 +363,11 @@ def _run_requests(ctx: Ctx, cases, segs, servers, conns: Conns, obs: list) -> No
             if not clean(o):
                 o["hung"] = _after_eof(conns, (wn, tr), o)
                 if reused or o["short"]:
-                    # attribute it: the same request alone on a fresh connection, generous watchdog
+                    # attribute it: the same request alone on a fresh connection, generous watchdog, strict lock-step
                     segs.good.reset()
                     conc = R.concretise(case, v, segs, ctx.rng)
                     lv2, _ = conns.get(wn, tr, fresh=True)
-                    o2 = exchange(lv2, conc["bytes"], script, x, wn[0] == "V", T2)
+                    o2 = exchange(lv2, conc["bytes"], script, x, wn[0] == "V", T2, strict=True)
                     o2["hung"] = _after_eof(conns, (wn, tr), o2)
                     if not (reused and clean(o2)):
                         o = o2
